@@ -480,6 +480,33 @@ pub fn directed() -> Vec<Request> {
             }
         }
     }
+    // types handed over by a `macro_rules!` expansion (`$t:ty`): inside a None-delimited group
+    for ty in ["dyn A + B", "dyn Fn() + Send", "impl A + B", "fn(T)", "T", "Vec<T>", "&'a T", "(T, u8)", "[T; N]", "dyn A", "A + B"] {
+        for (attr, item) in [
+            (TRAITS.join(", "), format!("struct X<'a, T, const N: usize>(__ng({ty}));")),
+            ("Deref, DerefMut".to_string(), format!("struct X<'a, T, const N: usize>(__ng({ty}));")),
+            ("Ord, PartialOrd, Eq, PartialEq, Hash, Clone, Debug, Default".to_string(), format!("enum X<'a, T, const N: usize> {{ A(T, #[ord(by = f)] __ng({ty})), #[default] B {{ a: __ng({ty}) }} }}")),
+            ("Add, AddAssign".to_string(), format!("impl<'a, T> Add<__ng({ty})> for __ng({ty}) {{ type Output = __ng({ty}); }}")),
+            ("Sub".to_string(), format!("impl<'a, T> SubAssign<&Self> for __ng({ty}) {{ }}")),
+        ] {
+            out.push(Request { mode: Mode::Attr, attr: attr.clone(), item: item.clone() });
+            if !item.starts_with("impl") {
+                out.push(Request { mode: Mode::Derive, attr: String::new(), item: format!("#[derive_ex({attr})] {item}") });
+            }
+        }
+    }
+    // expressions handed over by a `macro_rules!` expansion (`$e:expr`)
+    for e in ["1", "\"s\"", "X::A", "{ X(1) } + X(2)", "$.0", "|a, b| a == b", "f", "1 + 2", "_"] {
+        for item in [
+            format!("#[default(__ng({e}))] struct X(u8);"),
+            format!("struct X<T>(#[default(__ng({e}))] T, #[default(__ng({e}), bound(T))] u8);"),
+            format!("enum X {{ #[default(__ng({e}))] A, #[default] B {{ #[default(__ng({e}))] a: u8 }} }}"),
+            format!("struct X(#[ord(key = __ng({e}))] (u8, u8), #[eq(by = __ng({e}))] u8, #[hash(key = __ng({e}), by = __ng({e}))] u8);"),
+        ] {
+            out.push(Request { mode: Mode::Attr, attr: "Default, Ord, PartialOrd, Eq, PartialEq, Hash".into(), item: item.clone() });
+            out.push(Request { mode: Mode::Derive, attr: String::new(), item: format!("#[derive_ex(Default, Ord, PartialOrd, Eq, PartialEq, Hash)] {item}") });
+        }
+    }
     // every unknown / oddly spelled trait name in every trait-name position
     for name in crate::gen::unknown_traits() {
         let name = crate::gen::ident_text(name);
